@@ -221,7 +221,8 @@ class PWLCalibration(keras.layers.Layer):
                        "together with 'is_cyclic'.")
     if monotonicity is None:
       raise ValueError("'monotonicity' can't be None. Did you mean '0'?")
-    if ((clamp_min or clamp_max) and
+    if (((clamp_min and output_min is not None) or
+         (clamp_max and output_max is not None)) and
         not utils.canonicalize_monotonicity(monotonicity)):
       raise ValueError("'clamp_min'/'clamp_max' require a monotonic calibrator: "
                        "clamping is not implemented for non monotonic functions.")
